@@ -267,7 +267,7 @@ pub fn run_with(case: &McCase, trace: bool, setup: impl FnOnce(&Net)) -> McResul
                             return;
                         }
                         Some(Err(e)) => {
-                            sh2.accs.lock()[k].out = CallOut::Err(t, e.to_string());
+                            sh2.accs.lock()[k].out = CallOut::Err(t, format!("{e:?}: {e}"));
                             return;
                         }
                         Some(Ok(s)) => s,
@@ -337,7 +337,7 @@ pub fn run_with(case: &McCase, trace: bool, setup: impl FnOnce(&Net)) -> McResul
                         if trace {
                             println!("        connect #{ci} failed at t={:.3}ms: {e}", t as f64 / 1000.0);
                         }
-                        sh2.conns.lock()[ci].out = CallOut::Err(t, e.to_string());
+                        sh2.conns.lock()[ci].out = CallOut::Err(t, format!("{e:?}: {e}"));
                         return;
                     }
                     Some(Ok(s)) => s,
